@@ -629,6 +629,15 @@ def service_scenario(rng, T, roots, tag='sv'):
                 for b in pend:
                     for sdep in eff_deps(T, b):
                         if T[sdep]['kind'] == 'service':
+                            if not pids.get(sdep):
+                                # the service's shell writes its start line a little after zinoma spawned it (the dependent's
+                                # shell, spawned later, may write first): give the line a moment before judging
+                                t1 = time.time()
+                                while time.time() - t1 < 2.0 and not pids.get(sdep):
+                                    time.sleep(0.01)
+                                    for kx, t, pid in run.trace():
+                                        if kx == 'start' and t == sdep and int(pid) not in pids.get(sdep, []):
+                                            pids.setdefault(sdep, []).append(int(pid))
                             alive = [p for p in pids.get(sdep, []) if blackbox.proc_state(p) not in (None, 'Z')]
                             checked += 1
                             if len(alive) != 1:
